@@ -305,6 +305,18 @@ func TestC02Relay(t *testing.T) {
 		a, b, r, o := s.nodes[0], s.nodes[1], s.nodes[2], s.nodes[3]
 		for round, rounds := 0, c.Int("rounds", 1, 6); round < rounds; round++ {
 			for _, w := range []*Node{a, b} {
+				// now and then a writer publishes several hundred entries between two
+				// exchanges (an agent with many endpoints connecting, a long partition):
+				// more pending entries of one node than any one delta can carry
+				if c.Chance("bigBurst", 1, 10) {
+					n := c.Int("bigBurstKeys", 250, 330)
+					for i := 0; i < n; i++ {
+						w.n.State.UpsertLocal(fmt.Sprintf("big%03d", i), fmt.Sprintf("r%d", round))
+						s.snapshotLocal(w)
+					}
+					c.Class("big-burst")
+					c.Stepf("%s writes a burst of %d entries", w.id, n)
+				}
 				for i, k := 0, c.Int("writes", 0, 12); i < k; i++ {
 					switch c.Weighted("op", []string{"upsert", "delete", "compact"}, []int{8, 2, 1}) {
 					case "upsert":
